@@ -56,7 +56,7 @@ func findUnknown(ms *spec.Msg, obj types.Object, path string, out *[]problem) {
 			}
 		}
 	}
-	if ms.Empty {
+	if ms.Placeholder {
 		if av, ok := obj.Attrs["active"]; ok && av != nil && av.IsUnknown() {
 			*out = append(*out, problem{fp: "unknown-left/placeholder", path: path + ".active", msg: "placeholder unknown after echo"})
 		}
